@@ -5,7 +5,7 @@
 EXTENDS MC_Engine, BuiltinPolicies
 
 AllBits == <<"ENCRYPT", "DECRYPT", "SIGN", "VERIFY", "MAC_GENERATE", "WRAP_KEY", "DERIVE_KEY">>
-Masks == {<<>>, <<"ENCRYPT">>, <<"SIGN">>, AllBits}
+Masks == {<<>>, <<"ENCRYPT">>, <<"SIGN">>, AllBits, <<"EXPORT", "UNRESTRICTED">>}     \* the last one: bits that grant no operation the server performs
 Codes == {"KEY_COMPROMISE", "CESSATION_OF_OPERATION", "CA_COMPROMISE"}
 
 One(op, p) == Rq("alice", 12, "None", <<It(op, "", p)>>)
